@@ -45,13 +45,29 @@ PROPS = {
                       "segmentNonce_limit sink_fault_surfaces flush_fails_after_fault failed_flush_keeps_segment read_honest "
                       "reader_chunking_independent stream_roundtrip read_sound manipulation_detected source_fault_never_eof "
                       "idealCipher_sound"),
-        "harness": [{"name": "c07a"}],
-        "rule": "real noncebased.Writer/Reader driven with a toy segment cipher mirrored in Lean: segment sizes 1..40, first-segment "
+        "harness": [{"name": "c07a"}, {"name": "c07b", "timeout": 3000, "pre": True}],
+        "rule": "c07a: real noncebased.Writer/Reader driven with a toy segment cipher mirrored in Lean: segment sizes 1..40, first-segment "
                 "offsets, nonce/prefix sizes incl. invalid, plaintext lengths on segment boundaries, random write partitions with "
                 "zero-length writes, sink failing from a chosen call, five source chunkers incl. (0,nil) and data+EOF, honest and "
                 "manipulated streams (truncate/drop/dup/flip/append/swap/empty), failing sources, random read capacities incl. 0; every "
                 "call's (n, error class, bytes) is diffed; the spec function encodeStream is compared with the real writer's output; "
-                "non-trivial = every op except constructor lines, distinct by line hash",
+                "non-trivial = every op except constructor lines, distinct by line hash. "
+                "c07b: the real key types (AES-GCM-HKDF, AES-CTR-HMAC) through streamingaead/subtle, the key-level constructors "
+                "(aesgcmhkdf/aesctrhmac keys from parameters, primitive registry) and the keyset factory (1-4 keys of mixed types, handles "
+                "also through binary serialization and with non-RAW prefix types) against an independent Lean implementation of the documented "
+                "header||segments format (Model/StreamKeys.lean: HKDF with the associated data, nonce prefix||be32 counter||last flag, "
+                "AES-GCM / AES-CTR+HMAC segments; decoding by `split`, not the reader state machine): key sizes 16/32, HKDF hashes "
+                "SHA1/224/256/384/512 (subtle) and SHA1/256/512 (keys), tag algorithms and sizes 10..digest, segment sizes minimum..4096, "
+                "first-segment offsets, main keys longer than the derived key, empty/short/long associated data, plaintext lengths on every "
+                "boundary (0, 1, first-1..first+1, each segment boundary -1/0/+1 up to 5 segments); direction Go->model (decoded plaintext and "
+                "byte-identical re-encryption from the header's salt/prefix) and model->Go (two-phase, harness-chosen salt/prefix), random "
+                "write partitions incl. empty writes, read buffers of 0/1/segment/more-than-a-segment bytes over non-seekable short-reading "
+                "sources; ~50 manipulation kinds (each header field, body/tag flips, every truncation kind, appended bytes/valid segments, "
+                "swap/duplicate/drop, last<->non-last substitution, wrong associated data, other key, one parameter changed): the real "
+                "reader's verdict is diffed with the format-level decoder and the bytes released before the error must be whole segments of "
+                "the plaintext; keyset reader with the right key at every position, disabled or absent (nothing may be released); sources "
+                "failing at every kind of offset incl. (n>0, err) and sinks failing from a chosen call must surface as errors; constructor "
+                "guards of the subtle API diffed with the model; non-trivial = every op line, distinct by line hash",
         "trusted_base": [KERNEL, TIE, "io.ReadFull semantics (stdlib) are modelled: only the byte stream and the fault position matter"],
         "assumptions": ["H_seg (ideal segment AEAD) is an explicit hypothesis of manipulation_detected; non-vacuity shown by idealCipher_sound",
                         "segment-cipher round trip and expansion (Honest) are hypotheses of the reader theorem",
@@ -69,10 +85,15 @@ PROPS = {
         },
     },
     "C08": {
-        "lean": ["TinkVerif.Props.C08"],
+        "lean": ["TinkVerif.Props.C08", "TinkVerif.Props.C08Deep"],
         "theorems": ["TinkVerif.Kwp.stepB_stepF", "TinkVerif.Kwp.Winv_W", "TinkVerif.Kwp.wrappingSize_formula",
                      "TinkVerif.Kwp.wrappingSize_mult8", "TinkVerif.Siv.xorBE_involutive", "TinkVerif.Siv.decryptRaw_encryptRaw",
-                     "TinkVerif.Siv.decrypt_encrypt", "TinkVerif.Siv.decrypt_iff", "TinkVerif.Siv.decrypt_short"],
+                     "TinkVerif.Siv.decrypt_encrypt", "TinkVerif.Siv.decrypt_iff", "TinkVerif.Siv.decrypt_short",
+                     "TinkVerif.Cmac.xorEndAndCompute_eq", "TinkVerif.Cmac.xorEndAndCompute_eq_none_iff",
+                     "TinkVerif.Cmac.xorEndAndCompute_eq_spec", "TinkVerif.Cmac.mulByX_eq_dblSpec", "TinkVerif.Cmac.toNatBE_mulByX",
+                     "TinkVerif.Siv.s2v_eq_spec", "TinkVerif.Siv.s2v_eq_rfc", "TinkVerif.Siv.s2v_length",
+                     "TinkVerif.Kwp.unwrap_wrap", "TinkVerif.Kwp.wrap_eq_none_iff", "TinkVerif.Kwp.wrap_length",
+                     "TinkVerif.Kwp.unwrap_some_length"],
         "harness": [{"name": "c08", "timeout": 3000}],
         "rule": "AES-SIV via daead.New(handle) (TINK/CRUNCHY/RAW) and daead/subtle: pt/ad lengths <16, =16, 17..31, block multiples ±1, "
                 "up to 4 KiB; ciphertext equality with the Lean RFC 5297 model; decrypt decisions on mutations incl. the two cleared IV "
@@ -82,8 +103,10 @@ PROPS = {
         "trusted_base": [KERNEL, TIE, PRIMS],
         "assumptions": ["forgery rejection beyond the exact characterisation decrypt_iff rests on CMAC unforgeability (cryptographic)"],
         "manifest": {
-            "text": "Theorems for every block function: KWP's unwrapping permutation inverts the wrapping permutation step by step; wrapping "
-                    "size formula; AES-SIV decrypt∘encrypt = id (raw and prefixed), exact acceptance characterisation, short inputs "
+            "text": "Theorems for every block function: the Go-shaped XOREndAndCompute loop = CMAC of RFC 5297 xorend (all lengths); the "
+                    "two-branch s2v of the code = RFC 5297 S2V; the constant-time doubling = RFC dbl; KWP unwrap∘wrap = id under exactly "
+                    "wrap's own size guards, output length, rejected lengths; KWP's unwrapping permutation inverts the wrapping permutation "
+                    "step by step; wrapping size formula; AES-SIV decrypt∘encrypt = id (raw and prefixed), exact acceptance characterisation, short inputs "
                     "rejected. Tie: byte equality of Go ciphertexts/wrappings with the RFC 5297 / RFC 5649 Lean models over the reference AES, "
                     "S2V and XOREndAndCompute vs their RFC-text specifications, decisions on mutation streams.",
             "design_ref": "DESIGN.md §5.8",
@@ -328,9 +351,12 @@ PROPS["C10"] = {
 }
 
 PROPS["C03"] = {
-    "lean": ["TinkVerif.Props.C03"],
+    "lean": ["TinkVerif.Props.C03", "TinkVerif.Props.C03Der", "TinkVerif.Kat.DerList"],
     "theorems": T("TinkVerif.Sig", "fullVerify_fullSign fullVerify_iff legacy_signs_suffixed p1363_roundtrip p1363_wrong_length "
-                  "p1363_encode_decode rsa_guard"),
+                  "p1363_encode_decode rsa_guard") +
+                T("TinkVerif.DerList", "decSig_encSig encSig_decSig decSig_eq_some_iff encSig_inj decSig_append_none decSig_take_none "
+                  "decSig_trailing_inside decSig_leading_zero_r decSig_leading_zero_s decSig_wrong_tag decInt_encInt encInt_decInt "
+                  "encInt_inj decInt_negative decInt_empty decLen_unique decSig_encSig_p521"),
     "harness": [{"name": "c03", "timeout": 3000}],
     "rule": "Go signs with ECDSA (P-256/384/521 × SHA256/384/512 admissible pairs × DER/P1363), Ed25519, RSA-SSA-PKCS1 (2048/3072 × hash), "
             "RSA-SSA-PSS (salt 0/20/32/48/64 × hash), every variant TINK/CRUNCHY/LEGACY/RAW; the independent Lean verifier (curve arithmetic, "
